@@ -279,7 +279,7 @@ PROPS['C20'] = dict(
 )
 
 PROPS['C03'] = dict(
-    units=['k_tok', 'k_dec'], level='proof', design_ref='6/C03',
+    units=['k_tok', 'k_dec', 'k_enc'], level='proof', design_ref='6/C03',
     technique='CBMC dfcc function contracts with loop contracts on MessageBase::extract_element(const char*, unsigned, char*, char*) and extract_element_fixed_width (clang AST of message.hpp), '
               'and the three tokeniser calls of MessageBase::extract_header checked against the callee contract with --replace-call-with-contract (call-site precondition obligations)',
     text='Tokeniser safety (proved, unbounded in the input length up to 8192 by loop contracts): given output buffers of input length + 1 bytes, extract_element reads only inside the input, writes only '
@@ -287,6 +287,9 @@ PROPS['C03'] = dict(
          'byte more than the input when the data runs to the very end: the separator is accounted for, not checked -- stated in the contract). Call sites: extract_header passes a 32-byte tag '
          'buffer, a 2048-byte value buffer and the caller\'s 32-byte len / mtype buffers and shows the tokeniser at most 31 bytes per field, so the callee\'s capacity preconditions hold at all '
          'three calls (they were refuted before fix b253198: stack-buffer-overflow from a 59-byte input, ASan); FIXReader::read\'s two calls are checked in C15 (fix 363a513). '
+         'Encode side: Message::encode(f8String&) (from the clang AST) hands Message::encode(char**) a stack buffer of FIX8_MAX_MSG_LENGTH + HEADER_CALC_OFFSET bytes, while that function needs '
+         'HEADER_CALC_OFFSET + all field bytes + 8 (K-enc proves that room sufficient and the last byte necessary): KNOWN FINDING -- nothing bounds the field values, a NewOrderSingle with a '
+         '10000-byte Text overflows the stack (ASan); Session::send_process has the same buffer. '
          'NOT decided: the tokeniser call sites in MessageBase::decode / decode_group (2048-byte buffers against fields of up to the message length), '
          'Message::factory / decode as a whole (totality, exception types), the encode side (Message::encode(f8String&) into a fixed stack buffer, Session::send_process).',
     note='only the two char* tokenisers and extract_header\'s call sites are under contract; isdigit (C locale), memcpy (k-witness model), std::string data()/size() ASSUMED',
@@ -573,6 +576,13 @@ def _replay_k_log(oid, inputs, trace, wd):
 
 def _replay_k_enc(oid, inputs, trace, wd):
     R = _rp.astdump.REPO
+    if 'encode_to_string' in oid:
+        exe = _rp.build_native(os.path.join(_rp.VERIF, 'replay', 'k_encbig.cpp'), os.path.join(wd, 'replay_k_encbig'),
+                               extra=[R + '/runtime/message.cpp', '-I/repo/utests', '-L/repo/utests/.libs', '-lutest', '-L/repo/runtime/.libs', '-lfix8',
+                                      '-Wl,-rpath,/repo/utests/.libs', '-Wl,-rpath,/repo/runtime/.libs'], timeout=900)
+        rc, o = _rp.run_native(exe, [10000])
+        asan = 'AddressSanitizer' in o
+        return dict(steps=[dict(kind='native: NewOrderSingle with a 10000-byte Text encoded through Message::encode(f8String&) (ASan)', rc=rc, asan_report=asan, output=o[-1200:])], reproduced=asan or rc != 0)
     # generated FIX42 test classes and the rest of the runtime come from the repository's built libraries; Message::encode itself is compiled from the working tree
     exe = _rp.build_native(os.path.join(_rp.VERIF, 'replay', 'k_enc.cpp'), os.path.join(wd, 'replay_k_enc'),
                            extra=[R + '/runtime/message.cpp', '-I/repo/utests', '-L/repo/utests/.libs', '-lutest', '-L/repo/runtime/.libs', '-lfix8',
